@@ -73,6 +73,8 @@ pub fn curated_bodies() -> Vec<String> {
         "<html><body><style>p{}</style\t><textarea>t</textarea ><div>x</div></body></html>".into(),
         "<html><body><script><!--\ndocument.write('<script src=\"a.js\"><\\/script>');\n//--></script><div>y</div></body></html>".into(),
         "<html><body><script><!-- x --></script><div>y</div><script>a<b</script></body></html>".into(),
+        // a document saved as "UTF-8 with BOM", inline SVG with a <title> and a <style> of its own
+        "\u{feff}<html><body><svg><title>s</title><style>p{}</style><path d=\"M0 0\"/></svg><div>x</div></body></html>".into(),
         // end tags that close nothing inside a buffered target (explicitly closed void element, stray </p>)
         "<html><head><link rel=\"a\"></link><title>T</title></head><body><div><br></br>x</p>y<p class=z>q</p></div></body></html>".into(),
     ]
